@@ -111,6 +111,20 @@ def catalogue(tier):
         out.append((f"innate-tip-position:{keys[0]}:77", cols, k))
     except BaseException:
         pass
+    # a height column that is a staircase (oversampled DAC ramp): weakly
+    # monotone with repeated values in each segment
+    try:
+        cols, k = synthetic(keys[0], 78, tilt=0.0, drift=0.0, lag=3,
+                            noise=2e-11, n_app=110, n_ret=55)
+        cols = dict(cols)
+        hp = cols["height (measured)"]
+        q = float(np.ptp(hp)) / 40
+        # (half a step off the grid: no signed zeros, whose order among
+        # equal values is unspecified in scipy's selection)
+        cols["height (piezo)"] = (np.round(hp / q) + 0.5) * q
+        out.append((f"staircase-piezo:{keys[0]}:78", cols, k))
+    except BaseException:
+        pass
     recs = [("fmt-jpk-fd_spot3-0192.jpk-force", 12),
             ("fmt-jpk-fd_single_tilted-baseline-drift-"
              "mitotic_2021-01-29.jpk-force", 40)]
